@@ -216,7 +216,7 @@ impl Prop for C04 {
 
     fn rule(&self) -> String {
         "cases = (a generated tree up to depth 4 over a name pool with ASCII, Unicode, spaces and a 66-character name (paths > 100 bytes), extensions incl. the empty one, same stem with several extensions, a directory and a file sharing an id, \
-         empty directories, contents empty / small / 20-100 KiB; archive options: member order permutation, directory members all / none / random subset, './' prefix, stored or deflated per member, an outdated earlier member of one path (the last member is the stored one), in-memory or file-backed reader; 1..4 reader threads). \
+         empty directories, contents empty / small / 20-100 KiB; archive options: member order permutation, directory members all / none / random subset, './' prefix, stored or deflated per member, an outdated earlier member of one path (the last member is the stored one), in-memory or file-backed reader; 1..4 reader threads; in a third of the cases also a copy of the zip archive with one flipped data byte in one stored member: reading that member must fail or give the tree's bytes, never other bytes). \
          The tree is materialised on disk (FileSystem), as zip, as tar and - by running the embed! macro's own expansion code on the directory and evaluating the produced table - as Embedded. \
          Oracle = the generated tree itself: read gives the stored bytes, read_dir lists every direct child exactly once with kind/id/ext, exists agrees, listed entries are readable, absent entries (fresh ids, wrong extension, wrong kind) do not exist and fail to read (NotFound unless the other kind occupies the path). \
          non-trivial = a tree with >= 2 levels and a directory without an archive member of its own, or a non-identity member order; distinct = different canonical JSON"
@@ -249,7 +249,7 @@ impl Prop for C04 {
             .map(|k| {
                 to_case(&Case {
                     tree: TreeSpec { entries: Vec::new() },
-                    opts: ArchOpts { order: 0, dir_members: DirMembers::All, dot_prefix: false, deflate_mask: 0, file_backed: false, stale_duplicate: None },
+                    opts: ArchOpts { order: 0, dir_members: DirMembers::All, dot_prefix: false, deflate_mask: 0, file_backed: false, stale_duplicate: None, damage: None },
                     threads: 2,
                     fixed: Some(k),
                 })
@@ -327,6 +327,33 @@ impl Prop for C04 {
             }
             if out.failed() {
                 return Ok(());
+            }
+            // (b') the same archive with one flipped data byte in one stored member
+            if let Some(k) = c.opts.damage {
+                if let Some((copy, (id, ext))) = trees::damage_zip(&m, &c.opts, &zbytes, k) {
+                    match Zip::from_bytes(&copy[..]) {
+                        Ok(z) => {
+                            if let Ok(got) = z.read(&id, &ext) {
+                                if got.as_ref() != &m.files[&(id.clone(), ext.clone())][..] {
+                                    out.fail("damaged-member-read-ok:zip", format!("[zip] one data byte of member ({id:?}, {ext:?}) was flipped (its CRC-32 no longer matches): read succeeded and returned {} bytes that the tree does not hold", got.as_ref().len()));
+                                    return Ok(());
+                                }
+                            }
+                            // the other members are unaffected
+                            for ((i2, x2), bytes) in m.files.iter().filter(|(k2, _)| **k2 != (id.clone(), ext.clone())).take(4) {
+                                match z.read(i2, x2) {
+                                    Ok(b) if b.as_ref() == &bytes[..] => {}
+                                    _ => {
+                                        out.fail("damaged-archive-other-member:zip", format!("[zip] after damaging member ({id:?}, {ext:?}) the intact member ({i2:?}, {x2:?}) no longer reads its bytes"));
+                                        return Ok(());
+                                    }
+                                }
+                            }
+                            out.label("zip-member-damaged");
+                        }
+                        Err(_) => out.excluded += 1,
+                    }
+                }
             }
             // (c) tar
             let tbytes = trees::make_tar(&m, &c.opts);
